@@ -380,7 +380,8 @@ def _find_region1(path, fn_selector, start_pat, end_pat):
     def find(pat_text, from_ci):
         pat = [t.text for t in lex(pat_text) if t.kind not in ("ws", "lcomment", "bcomment")]
         for ci in range(from_ci, len(code) - len(pat) + 1):
-            if all(toks[code[ci + q]].text == pat[q] for q in range(len(pat))):
+            # `_id_` in an anchor stands for any one identifier
+            if all((toks[code[ci + q]].text == pat[q]) or (pat[q] == "_id_" and toks[code[ci + q]].kind == "ident") for q in range(len(pat))):
                 return ci
         return None
     def stmt_end(ci):
